@@ -7,7 +7,7 @@ entries, simple-patch fallback for empty new content).
               (record loop), with_entries}                                   → `offtin`, `offtout`, `parseCtl`, `validateEntries`
   patcher.rs  apply_patch_with_data (byte loops)                             → `memApply`
               ZbsdiffPatcher::apply_patch (buffer-sized chunks)              → `streamApply`
-  builder.rs  build_simple_patch / build_chunked_patch / build_optimized_patch → `simple`, `chunked`, `suffix`
+  builder.rs  build_simple_patch / build_chunked_patch / build_optimized_patch → `simple`, `chunked`, `suffix`, `suffixBlk` (with_max_diff_block_size)
   suffix.rs   matchlen, search (binary search over the suffix array), compute_diff → `matchLenAt`, `searchSA`, `computeDiff`
   header.rs   validate (only the output_size bound is modelled; the compressed sizes depend on zlib)
 
@@ -431,5 +431,14 @@ def suffixWith (cx : Cx) : Except Err Patch :=
 /-- `build()` / `build_optimized_patch` with the real `search` over suffix array `sa`. -/
 def suffix (sa : Array Nat) (old new : Bytes) : Except Err Patch :=
   suffixWith (mkCx old new (searchSA sa))
+
+/-- `ZbsdiffBuilder::new(old, new).with_max_diff_block_size(maxBlk).build()`. `build_optimized_patch`
+hands the control entries of `compute_diff` to `ControlBlock::with_entries` as they are and never
+reads `max_diff_block_size` (only `find_matching_chunk` of the chunked builder does): the configured
+block size is not an input of the suffix builder, whatever its value (0, 1, an exact divisor of a
+diff run, the 1 MiB default). Tied to the source by `Proofs/ZbsdiffTie.optimized_builder_tie` and on
+every `build suffixb <blk> …` line of the run. -/
+def suffixBlk (_maxBlk : Nat) (sa : Array Nat) (old new : Bytes) : Except Err Patch :=
+  suffix sa old new
 
 end Cascette.Model.Bspatch
